@@ -88,7 +88,7 @@ EXPECTED_FACTS = {
 }
 
 PROP = {
-    "lean_modules": ["GunYu.Props.C06"],
+    "lean_modules": ["GunYu.Props.C06", "GunYu.Props.C06Loop"],
     "audit_namespaces": ["GunYu.Props.C06"],
     "required_theorems": [
         "GunYu.Props.C06.outcome_continue_or_full",
@@ -113,6 +113,24 @@ PROP = {
         "GunYu.Props.C06.storedCompat_not_invariant",
         "GunYu.Props.C06.reset_on_full_needed",
         "GunYu.Props.C06.no_relabel_at_start_needed",
+        # collector (C05's models) and the Run() retry loop: Props/C06Loop.lean
+        "GunYu.Props.C06.gc_keeps_disk",
+        "GunYu.Props.C06.gc_keeps_memory",
+        "GunYu.Props.C06.disk_log_is_written",
+        "GunYu.Props.C06.mem_log_is_written",
+        "GunYu.Props.C06.loop_gc_disk",
+        "GunYu.Props.C06.loop_gc_memory",
+        "GunYu.Props.C06.attempt_inv",
+        "GunYu.Props.C06.corrupted_inv",
+        "GunYu.Props.C06.attempt_full_eq",
+        "GunYu.Props.C06.mix_admits",
+        "GunYu.Props.C06.stale_inv",
+        "GunYu.Props.C06.loop_inv",
+        "GunYu.Props.C06.loop_safe",
+        "GunYu.Props.C06.loop_next_outcomes",
+        "GunYu.Props.C06.loop_safe_stale",
+        "GunYu.Props.C06.loop_example",
+        "GunYu.Props.C06.loop_example_stale",
     ],
     "expected_facts": EXPECTED_FACTS,
     "harness": [{"name": "C06", "pkg": "./syncer/", "test": "TestVerifC06",
@@ -152,9 +170,10 @@ PROP = {
             "Window kinds: full-interrupted, restart-rekey, cached-interrupted, failover-continue (stale label in in-memory mode). "
             "Every 16th case injects a fault into one bookkeeping call (output.ResetStartPoint 1st/2nd call, output.SetRunId, "
             "channel.DelRunId, channel.SetRunId): the run must end with an error and deliver nothing (monitor only). "
-            "1/10 of the snapshot+log caches lie outside CacheWF (log not starting at the snapshot's offset): there only the query API "
-            "and the decision (q, meta) are compared and the property is not judged; every op carries wf=<SourceWF and CacheWF> computed "
-            "on both sides. "
+            "1/10 of the snapshot+log caches have a log that does not start at the snapshot's offset: on disk, and in memory when the "
+            "log starts before the snapshot, that is outside CacheWF - there only the query API and the decision (q, meta) are compared "
+            "and the property is not judged; in memory with the log starting after the snapshot (what the collector leaves) it is inside "
+            "CacheWF and everything is compared and judged; every op carries wf=<SourceWF and CacheWF> computed on both sides. "
             "distinct_nontrivial = distinct (backend, stored id class, cache id class, cache shape, stored-vs-cache, backlog, branch, "
             "full, delivered) combinations",
     "trusted": [
@@ -163,13 +182,18 @@ PROP = {
         "source double, recording output and channel proxy in harness/overlay/syncer/vf_c06_test.go",
     ],
     "assumptions": [
-        "CacheOK (bytes the cache holds under its run id are that id's history on the range it reports) and CacheWF (a cached log "
-        "starts at the cached snapshot's offset, data only under a real id) are HYPOTHESES of the single-connection theorems; there is "
-        "no Lean bridge lemma from C05's/C08's models (different types) - they are the intended content of C05/C08, here only checked "
-        "dynamically: caches are built through the real writers, the cache is read back against hist(id1) after every round "
-        "(cache-bytes), and cache_consistent_after / reach_inv re-establish them from the empty cache for every sequence the model "
-        "contains. CacheWF.contig additionally relies on the collector dropping the snapshot before any log segment (ds.go gcLogs; "
-        "the harness runs with the collector off)",
+        "CacheOK (bytes the cache holds under the source's current id are the current history's on the range it reports; under the "
+        "previous id the previous history's, or already the current one's) and CacheWF (on disk a cached log starts at the cached "
+        "snapshot's offset, in memory not before it; data only under a real id) are hypotheses of the single-connection theorems and "
+        "CONCLUSIONS of loop_inv / reach_inv for every state the loop reaches from the empty cache (attempts failing at any call, "
+        "ErrCorrupted, stale INFO, source changes, collector passes). The collector is C05's (Model/Store.lean Disk.gc / Mem.gc, "
+        "imported): Proofs/PsyncStore.lean computes what the channel reports of a C05 state (ofDisk / ofMem) and proves one pass is a "
+        "`Collected` step for every state satisfying C05's invariants; gc_keeps_disk / gc_keeps_memory state it for every reachable "
+        "state of C05's operation lists, disk_contig that the disk description has the log starting exactly at the snapshot, "
+        "disk_log_is_written / mem_log_is_written (over C05's disk_refines / mem_refines) that the reported range is C05's abstract log "
+        "and holds the bytes written. That the description the loop works on IS ofDisk/ofMem of the store it uses is the hypothesis "
+        "of loop_gc_disk / loop_gc_memory (tied by the query-API correspondence of this check and by C05's); caches are also read "
+        "back against hist(id1) after every round (cache-bytes)",
         "Truthful (the stored position describes what the target holds) is an invariant proved for every sequence of connections, "
         "interrupted replays, restarts and source changes of the repaired code (reach_inv / reach_safe: induction over init, connection with any ending in either mode, source change, cache loss or "
         "replacement, lost position; a restart in resume mode keeps the position and its label and is no transition), "
@@ -199,11 +223,16 @@ PROP = {
         "RedisOutput (what StartPoint answers after a completed / an interrupted full resynchronisation with stale recovery state)",
     ],
     "partial": [
-        "not modelled in Lean: the log collector (its effect enters `Reach` only as an arbitrary well-formed cache replacement; the "
-        "memory collector leaves caches outside CacheWF.contig, covered by the gcloop monitor only), several run-id directories in one disk store, "
-        "a +CONTINUE whose id differs from the id INFO returned a moment earlier, the Run() retry loop (ErrCorrupted -> DelRunId, "
-        "back-off), diskless replies ($EOF:, $0), int64 wrap of offset+1, an error of channel.StartPoint (ignored by the code), faults "
-        "in output.StartPoint (3 x 2 s retries); bisync mode beyond the bookkeeping probe (no bisync stream is replayed here)",
+        "the retry loop and the collector are modelled and proved (Props/C06Loop.lean: Loop, loop_inv, loop_safe, loop_next_outcomes, "
+        "loop_safe_stale); what remains outside the Lean model: an attempt whose INFO and PSYNC are answered by different sources is "
+        "modelled for ONE failover in between (the answering source's previous id is the id INFO reported; `staleAttempt`, defined "
+        "through the view `mix` whose admission is proved equal to the answering source's, mix_admits) and, for any other answering "
+        "source under a new id, for the FULLRESYNC outcome (`fullBy`) - a source two failovers away that would still grant CONTINUE "
+        "under an id INFO reported cannot exist in Redis (replid2 holds one id) and is not modelled; the loop's back-off and ErrBreak "
+        "(timing, termination) are not modelled; the stale attempt and the stages of a failed attempt have no correspondence ops of "
+        "their own (the fault-injection schedules and seed m1 exercise them, judged by the monitors only); several run-id directories "
+        "in one disk store, diskless replies ($EOF:, $0), int64 wrap of offset+1, an error of channel.StartPoint (ignored by the "
+        "code), faults in output.StartPoint (3 x 2 s retries); bisync mode beyond the bookkeeping probe (no bisync stream is replayed here)",
         "the truth of the target after a Send is set by the model (`afterSend`: .at id1 e) = the sender applies exactly the commands up "
         "to the offset it stores (C01/C07); tied here by the real-send window schedules on the target's request log",
     ],
@@ -218,14 +247,19 @@ MANIFEST = {
             "clearLocal/FULLRESYNC; the run never aborts. Over EVERY sequence of connections (any ending, resume and in-memory mode), "
             "source changes, cache losses/replacements and lost positions (inductive `Reach`): the stored position stays truthful and a "
             "log is only ever continued exactly on top of what the target really holds, in a prefix of the current history "
-            "(reach_inv, reach_safe). The model (decision table, SendPSync, channel API of both backends, Redis admission rule, the "
+            "(reach_inv, reach_safe). Over EVERY run of RedisInput.Run's retry loop (inductive `Loop`: attempts that fail after any call of "
+            "syncMeta or later, ErrCorrupted -> DelRunId, +CONTINUE granted by a successor under another id than INFO reported, "
+            "FULLRESYNC by any new source, collector passes of C05's disk and memory caches, source changes, cache and position losses) "
+            "the same holds for the next attempt (loop_inv, loop_safe, loop_next_outcomes, loop_safe_stale; the collector keeps CacheWF "
+            "including contiguity - equality on disk, snapshot-not-after-log in memory - and CacheOK: gc_keeps_disk, gc_keeps_memory). "
+            "The model (decision table, SendPSync, channel API of both backends, Redis admission rule, the "
             "output's position bookkeeping) is tied to the code by differential correspondence of the real RedisInput.run against a "
             "RESP source double, by restart-in-window schedules with the real RedisOutput bookkeeping and the real RedisOutput.Send on "
             "the shared target double (hand-off judged on the target's request log), fault injection into the bookkeeping calls, an "
             "independent end-to-end byte monitor and a re-extracted source skeleton. Three defects found and fixed (07a0622, 23cb23d, 58997e8).",
     "note": "trusted: Lean kernel (propext, Classical.choice, Quot.sound only), Redis PSYNC admission rule transcription, source double, "
-            "target double; CacheOK/CacheWF are hypotheses (C05/C08's content, no Lean bridge; re-established by cache_consistent_after and "
-            "checked by read-back); the label-based outcome_continue_or_full additionally needs StoredCompat, which is NOT an invariant "
+            "target double; CacheOK/CacheWF are invariants of the loop (loop_inv; the collector step is C05's, bridged in "
+            "Proofs/PsyncStore.lean) and checked by read-back; the label-based outcome_continue_or_full additionally needs StoredCompat, which is NOT an invariant "
             "(storedCompat_not_invariant) - the label-free reach_safe needs no such hypothesis",
     "technique": "Lean 4 proof (decision-table case analysis into three outcome specifications, invariant by induction over an inductive "
                  "reachability relation, omega) + differential correspondence over loopback + real-output window schedules + fault "
